@@ -108,7 +108,7 @@ func runC20(c *Ctx) {
 			hasDefault := false
 			var sw *ast.SwitchStmt
 			f.Walk(func(n ast.Node) bool {
-				if s, ok := n.(*ast.SwitchStmt); ok && s.Tag != nil && strings.HasSuffix(eng.ExprStr(s.Tag), ".op") {
+				if s, ok := n.(*ast.SwitchStmt); ok && s.Tag != nil && (eng.IsField(info, s.Tag, "dht/provider/keystore.operation.op") || eng.IsField(info, s.Tag, "dht/provider/keystore.resetOp.op")) {
 					sw = s
 				}
 				return true
@@ -129,12 +129,12 @@ func runC20(c *Ctx) {
 				// exactly one response per case: one top-level send on op.response, none nested
 				top, nested := 0, 0
 				for _, st := range cc.Body {
-					if s, ok := st.(*ast.SendStmt); ok && strings.HasSuffix(eng.ExprStr(s.Chan), ".response") {
+					if s, ok := st.(*ast.SendStmt); ok && isRespChan(info, s.Chan) {
 						top++
 						continue
 					}
 					ast.Inspect(st, func(n ast.Node) bool {
-						if s, ok := n.(*ast.SendStmt); ok && strings.HasSuffix(eng.ExprStr(s.Chan), ".response") {
+						if s, ok := n.(*ast.SendStmt); ok && isRespChan(info, s.Chan) {
 							nested++
 						}
 						return true
@@ -581,4 +581,9 @@ func identityField(st *types.Struct, depth int) string {
 		}
 	}
 	return ""
+}
+
+// isRespChan: the channel is the response field of a keystore operation (request or reset operation).
+func isRespChan(info *eng.Info, e ast.Expr) bool {
+	return eng.IsField(info, e, "dht/provider/keystore.operation.response") || eng.IsField(info, e, "dht/provider/keystore.resetOp.response")
 }
